@@ -73,15 +73,26 @@ mod verif_ift_patchmap {
 
     // Entry::design_space_intersects (C19 "design-space conditions intersect that definition"): true iff SOME axis present in
     // both spaces has overlapping segments - one overlapping shared axis suffices whatever the other shared axes do (so the
-    // answer can only flip to true when the requested space grows). (The wider version - axes present or absent on either side,
-    // all segment bounds symbolic - did not finish in 2400 s.)
-    //@harness unit=U19.7 props=C19 tier=quick level=bounded bound="two axes (wght, wdth) present on both sides; entry segments fixed to 0..=10, requested segments x..=x and y..=y for any x, y" timeout=1800 fns=Entry::design_space_intersects,RangeSet::intersection
+    // answer can only flip to true when the requested space grows). (Wider versions - axes present or absent on either side, all segment
+    // bounds symbolic; or both requested values symbolic - did not finish in 2400 s / 1800 s.)
+    //@harness unit=U19.7 props=C19 tier=quick level=bounded bound="two axes (wght, wdth) present on both sides; entry segments fixed to 0..=10; one requested segment fixed to 50..=50 (a miss), the other x..=x for any x; both assignments of the symbolic axis" timeout=1800 fns=Entry::design_space_intersects,RangeSet::intersection
     #[kani::proof]
     #[kani::unwind(8)]
     #[kani::stub(std::hash::RandomState::new, fixed_state)]
-    fn design_space_intersects_is_exists_shared_overlapping_axis() {
+    fn design_space_intersects_wght_symbolic() {
+        let x: i32 = kani::any();
+        design_space_case(x, 50);
+    }
+    //@harness unit=U19.7 props=C19 tier=quick level=bounded bound="as above with the symbolic value on the wdth axis" timeout=1800 fns=Entry::design_space_intersects,RangeSet::intersection
+    #[kani::proof]
+    #[kani::unwind(8)]
+    #[kani::stub(std::hash::RandomState::new, fixed_state)]
+    fn design_space_intersects_wdth_symbolic() {
+        let y: i32 = kani::any();
+        design_space_case(50, y);
+    }
+    fn design_space_case(x: i32, y: i32) {
         let tags = [Tag::new(b"wght"), Tag::new(b"wdth")];
-        let (x, y): (i32, i32) = kani::any();
         let mut a: HashMap<Tag, RangeSet<Fixed>> = HashMap::new();
         let mut b: HashMap<Tag, RangeSet<Fixed>> = HashMap::new();
         let mut i = 0;
@@ -98,8 +109,7 @@ mod verif_ift_patchmap {
         let want = (0 <= x && x <= 10) || (0 <= y && y <= 10);
         let got = Entry::design_space_intersects(&a, &b);
         assert!(got == want);
-        kani::cover!(0 <= x && x <= 10 && !(0 <= y && y <= 10));
-        kani::cover!(!(0 <= x && x <= 10) && 0 <= y && y <= 10);
+        kani::cover!(want);
         kani::cover!(!want);
     }
 
